@@ -256,6 +256,7 @@ def replay_case(H, case, profile='debug'):
     if st in ('PANIC', 'CRASH'):
         return [('panic', out)] if H.panic_policy == 'violation' else []
     CI = ConcreteChecker()
+    CI.native = ctx_get('full')['nat']
     try:
         H.oracle(CI, cfg, H.decode(cfg, case['inputs']), out)
     except Infeasible:
